@@ -141,6 +141,18 @@ def run(repo):
         calls = solution_calls(repo, fi)
         if not calls:
             raise AnalysisError('%s constructs no Solution' % fi.fq)
+        # a success Solution may also sit behind a guard clause on the status (if failed: return ..)
+        status_facts = {}
+
+        class _St(MustFlow):
+            def visit(self, node, state):
+                for c in ast.walk(node):
+                    if isinstance(c, ast.Call) and isinstance(c.func, ast.Name) and c.func.id == 'Solution':
+                        for f in state:
+                            if isinstance(f, tuple) and f[0] == 'cond' and \
+                                    ('status' in f[2].lower() or 'exitflag' in f[2].lower()):
+                                status_facts[id(c)] = 'past the test `%s` (%s)' % (f[2][:50], f[1])
+        _St().run(body_stmts(fi))
         for call, env in calls:
             objval, x = env['objval'], env['x']
             if is_nan(objval):
@@ -151,7 +163,7 @@ def run(repo):
                                      'passes x=%s: read-back guards rely on x being None'
                                      % (fi.fq, ntext(x)[:30]), repo.where(fi, call), PROPS))
             else:
-                why = _under_status(par, call, fi)
+                why = _under_status(par, call, fi) or status_facts.get(id(call))
                 ok = why is not None
                 res.inst({'interface': fi.fq, 'solution': 'success shape', 'guard': why}, ok)
                 if not ok:
@@ -286,10 +298,28 @@ def _index_var(expr, binds, depth=0):
 
 def _ecos_blocks(repo, res):
     fi = repo.func('eco_solver.solve')
+    from .common import single_defs, expand_locals
     binds = {}
     for n in walk_no_nested(fi.node):
         if isinstance(n, ast.Assign) and len(n.targets) == 1 and isinstance(n.targets[0], ast.Name):
             binds[n.targets[0].id] = n.value
+    # locals other than the index sets and the blocks themselves are expanded away, so that
+    # `num_zlb`, `len(zlb_idx)` and an alias of sol['z'] read the same
+    defs = {k: v for k, v in single_defs(fi.node).items()
+            if not k.endswith('_idx') and k not in ('G', 'h', 'dims', 'A', 'b', 'c', 'sol')
+            and not (k.startswith('G') and len(k) <= 4)}
+
+    def ex(e):
+        return expand_locals(fi.node, e, depth=4, defs=defs)
+
+    def len_args(e):
+        out = []
+        for x in ast.walk(ex(e)):
+            if isinstance(x, ast.Call) and call_name(x) == 'len' and x.args and isinstance(x.args[0], ast.Name):
+                out.append(x.args[0].id)
+            elif isinstance(x, ast.Attribute) and x.attr == 'size' and isinstance(x.value, ast.Name):
+                out.append(x.value.id)
+        return out
     if 'G' not in binds or 'h' not in binds or 'dims' not in binds:
         raise AnalysisError('eco_solver.solve: G / h / dims not found')
     # G = sp.csc_matrix(sp.vstack([Gl, Glb, Gub] + Gsc + Gec))
@@ -336,7 +366,7 @@ def _ecos_blocks(repo, res):
     detail = []
     for b, e in zip(gblocks[1:], h_elts[1:len(gblocks)]):
         coef_neg = any(isinstance(x, ast.UnaryOp) and isinstance(x.op, ast.USub)
-                       and 'ones' in ntext(x.operand) for x in ast.walk(binds[b]))
+                       and 'ones' in ntext(x.operand) for x in ast.walk(ex(binds[b])))
         rhs_neg = isinstance(e, ast.UnaryOp) and isinstance(e.op, ast.USub)
         which = 'lb' if '.lb' in ntext(e) else 'ub' if '.ub' in ntext(e) else '?'
         detail.append((b, 'c<0' if coef_neg else 'c>0', 'k<0' if rhs_neg else 'k>0', which))
@@ -354,12 +384,8 @@ def _ecos_blocks(repo, res):
         for k, v in zip(d.keys, d.values):
             if isinstance(k, ast.Constant) and k.value == 'l':
                 l_expr = v
-    lens = {}
-    for nm, v in binds.items():
-        if isinstance(v, ast.Call) and call_name(v) == 'len' and v.args and isinstance(v.args[0], ast.Name):
-            lens[nm] = v.args[0].id
     want = [i[0] for i in g_idx if len(i) == 1]
-    got = [lens.get(x.id) for x in ast.walk(l_expr) if isinstance(x, ast.Name)] if l_expr is not None else []
+    got = len_args(l_expr) if l_expr is not None else []
     ok = sorted(got) == sorted(want)
     res.inst({'ecos': "dims['l']", 'terms': got, 'blocks': want}, ok)
     if not ok:
@@ -368,9 +394,10 @@ def _ecos_blocks(repo, res):
     # read-back:  z[:num_ineq], z[num_ineq + arange(num_zlb)], z[num_ineq + num_zlb + arange(num_zub)]
     offs = []
     for n in walk_no_nested(fi.node):
-        if isinstance(n, ast.Subscript) and ntext(n.value) == "sol['z']":
-            names = [x.id for x in ast.walk(n.slice) if isinstance(x, ast.Name) and x.id in lens]
-            offs.append([lens[x] for x in names])
+        if isinstance(n, ast.Subscript) and ntext(ex(n.value)) == "sol['z']" and isinstance(n.ctx, ast.Load):
+            offs.append(len_args(n.slice))
+    if not offs:
+        raise AnalysisError("eco_solver.solve: no read of sol['z'][..] found")
     exp = [want[:1], want[:2], want[:3]]
     ok = sorted(map(sorted, offs)) == sorted(map(sorted, exp))
     res.inst({'ecos': 'dual read-back offsets', 'offsets': offs, 'expected_prefixes': exp}, ok)
